@@ -291,10 +291,11 @@ class SeriesVal:
         return self.exists(lambda i: self.null(i))
 
     def all(self, axis=None):
-        return self.forall(lambda i: self.at(i))
+        # pandas reductions skip missing entries (skipna=True): an <NA> in a nullable boolean series does not make all() false
+        return self.forall(lambda i: z3.Or(self.null(i), _zb(self.at(i))))
 
     def any(self, axis=None):
-        return self.exists(lambda i: self.at(i))
+        return self.exists(lambda i: z3.And(z3.Not(self.null(i)), _zb(self.at(i))))
 
     @property
     def empty(self):
